@@ -476,19 +476,48 @@ def run(run):
 
         # (b) precondition dropped when any defining variant writes an input
         f_pre = F.fn("get_block_precondition_after_defs", mod=mod)
-        ms = T.find_matches(f_pre["body"], adt_suffix="def::Def")
-        if not ms:
-            raise T.AnchorMissing("no match over Def in get_block_precondition_after_defs")
+        # by specialisation: the block contains a Def of kind V that writes an input variable of the precondition
+        # (every `contains` test on the set of input variables is true) -- can the function still only answer Some(..)?
+        from .lib import peval as PE
+
+        def pre_case(v, writes_input):
+            hits = {"def": 0, "contains": 0}
+
+            def assume(n):
+                k = n.get("k")
+                ty = (F.ty(n) or "").replace("&", "").replace("mut ", "").strip()
+                if ty.endswith("def::Def") and k in ("Field", "Deref", "Borrow", "Call"):
+                    hits["def"] += 1
+                    return ("enum", v)
+                if k == "Call" and n.get("n") in ("contains", "contains_key") and n.get("a") and "Variable" in (F.ty(n["a"][0]) or ""):
+                    hits["contains"] += 1
+                    return ("bool", writes_input)
+                return None
+            spec = PE.Spec(F, assume=assume, enter_closures=True, follow_calls=True)
+            res, nodes = spec.results(f_pre["body"], {})
+            # results of closures entered on the way do not belong to the function
+            return [(id(T.peel(r)), PE.option_kind(r)) for r in res], hits
+
+        def pre_both(v):
+            with_, hits = pre_case(v, True)
+            without, _h = pre_case(v, False)
+            base = {i for i, k_ in without}
+            diff = [k_ for i, k_ in with_ if i not in base]      # results that exist only because the Def writes an input
+            keeps = any(isinstance(k_, tuple) for i, k_ in with_)  # the precondition can still be returned
+            return diff, keeps, hits
+        cases = {v: pre_both(v) for v in defining}
+        any_contains = any(h["contains"] for d_, k_, h in cases.values())
         for v in defining:
-            arms = T.arms_for_variant(ms[0], v)
             key = "precondition-invalidated-by|%s" % v
-            if not arms:
-                run.violated("R4", key, "no arm")
-                continue
-            t = S.Sym(F).scan(f_pre["body"]).ev(arms[0]["b"], {})
-            rets = [x for x in S.subterms(t) if isinstance(x, tuple) and x and x[0] == "return" and x[1][0] == "adt" and x[1][2] == "None"]
-            conts = any(is_call(x, "contains") for x in S.subterms(t))
-            run.check("R4", key, bool(rets) and conts, "a Def::%s that writes an input variable of the block precondition must invalidate it (return None); arm is %s" % (v, fmt(t)[:160]), F.loc(arms[0]["b"]))
+            diff, keeps, hits = cases[v]
+            if not hits["def"] or not any_contains:
+                run.undecided("R4", key, "no dispatch on the kind of definition / no membership test on the precondition's input variables found", F.loc(f_pre["body"]))
+            elif "None" in diff:
+                run.holds("R4", key, "", F.loc(f_pre["body"]))
+            elif not diff and keeps:
+                run.violated("R4", key, "a Def::%s that writes an input variable of the block precondition must invalidate it (None); the function answers the same whether or not the Def writes an input, and can still return the precondition" % v, F.loc(f_pre["body"]))
+            else:
+                run.undecided("R4", key, "results that depend on the write: %s" % diff, F.loc(f_pre["body"]))
 
         # (c) retarget_jumps only writes block-target slots
         f_rt = F.fn("retarget_jumps", mod=mod)
